@@ -4,8 +4,15 @@ import importlib, json, os, sys
 V = os.path.dirname(os.path.dirname(os.path.abspath(__file__)))
 sys.path.insert(0, V)
 ALL = ["C%02d" % i for i in range(1, 19)]
+EXCLUDE = set()
+for a in sys.argv[1:]:
+    if a.startswith("--exclude="):
+        EXCLUDE = set(a.split("=", 1)[1].split(","))
 checks, na, engines = [], [], []
 for pid in ALL:
+    if pid in EXCLUDE:
+        na.append({"property_id": pid, "reason": "check still being built in this round (design in DESIGN.md section 5); nothing is claimed for it yet"})
+        continue
     try:
         mod = importlib.import_module("vlib.props." + pid.lower())
     except ModuleNotFoundError:
